@@ -8,6 +8,7 @@ import SnowModel.Core.Uid
 import SnowModel.Generated.ScrambledNumbers
 import SnowModel.Generated.UniqueId
 import SnowModel.Generated.UniqueIdBuiltins
+import SnowModel.Generated.PluginContinuation
 
 namespace SnowModel.Props.C13Bridge
 open SnowModel.Uid
@@ -234,5 +235,36 @@ theorem builtins_wiring :
     Gen.UniqueIdBuiltins.registrations =
       ["self.unique_id = StringGenerator(self._unique_id)",
        "self.unique_alpha_code = StringGenerator(self._unique_alpha_code)"] := ⟨rfl, rfl, rfl, rfl⟩
+
+/-! #### continuation: `__reduce__` / `_from_continuation` (model: `reduceGen`, `Op.restore`) -/
+
+/-- the constructor has no way to be handed a context number: the parameters a continuation
+    file can pass are exactly these -/
+theorem numeric_init_params :
+    Gen.UniqueId.numericInitParams =
+      ["self", "parts=", "pid=None", "min_chars=None", "randomize=True", "start=1"] := rfl
+
+/-- `__reduce__` persists the template, `min_chars`, `randomize` and the *original* `start` —
+    not the pid, not the context number, not the position of the counter (`reduceGen`) -/
+theorem numeric_reduce :
+    Gen.UniqueId.numericReduceState =
+      ["'parts': self.parts", "'min_chars': self.min_chars", "'randomize': self.randomize", "'start': self.start"] ∧
+    Gen.UniqueId.numericReduce =
+      ["state = {'parts': self.parts, 'min_chars': self.min_chars, 'randomize': self.randomize, 'start': self.start}",
+       "return (self.__class__, (state,))"] := ⟨rfl, rfl⟩
+
+/-- `AlphaUniquifier` inherits `PluginResult.__reduce__` (`reduceGen … = none`) -/
+theorem alpha_has_no_reduce :
+    Gen.UniqueId.alphaOwnMethods = ["__init__", "_randomize_number", "unique_id"] ∧
+    Gen.PluginContinuation.reduceBody = ["return (self.__class__, (dict(self.result),))"] := ⟨rfl, rfl⟩
+
+/-- restoring is an ordinary constructor call with the persisted keywords (`Op.restore`) -/
+theorem from_continuation :
+    Gen.PluginContinuation.fromContinuation = ["cls,args", "classmethod", "return cls(**args)"] ∧
+    Gen.PluginContinuation.initSubclass = ["super().__init_subclass__(**kwargs)", "_register_for_continuation(cls)"] ∧
+    Gen.PluginContinuation.register =
+      ["SnowfakeryDumper.add_representer(cls, Representer.represent_object)",
+       "yaml.SafeLoader.add_constructor(f'tag:yaml.org,2002:python/object/apply:{cls.__module__}.{cls.__name__}', lambda loader, node: cls._from_continuation(loader.construct_mapping(node.value[0])))"] :=
+  ⟨rfl, rfl, rfl⟩
 
 end SnowModel.Props.C13Bridge
